@@ -760,13 +760,26 @@ func (o *Obs) Diff(p *Obs) []string {
 	var d []string
 	add := func(name, a, b string) {
 		if a != b {
-			if len(a) > 300 {
-				a = a[:300] + "..."
+			// long values: a window around the first difference
+			i := 0
+			for i < len(a) && i < len(b) && a[i] == b[i] {
+				i++
 			}
-			if len(b) > 300 {
-				b = b[:300] + "..."
+			cut := func(x string) string {
+				lo, hi := max(0, i-150), min(len(x), i+150)
+				if len(x) <= 300 {
+					return x
+				}
+				pre, post := "", ""
+				if lo > 0 {
+					pre = "..."
+				}
+				if hi < len(x) {
+					post = "..."
+				}
+				return pre + x[lo:hi] + post
 			}
-			d = append(d, fmt.Sprintf("%s: %s != %s", name, a, b))
+			d = append(d, fmt.Sprintf("%s: %s != %s", name, cut(a), cut(b)))
 		}
 	}
 	add("height", fmt.Sprint(o.Height), fmt.Sprint(p.Height))
